@@ -293,6 +293,14 @@ func (t *translator) stmts(l []ast.Stmt, acts []int, e renv, k cont) string {
 			if id, ok := t.spec.Rets[txt]; ok {
 				return leaf(acts, fmt.Sprintf("RetO %d", id))
 			}
+			if len(v.Results) == 2 && t.text(v.Results[1]) == "nil" {
+				// (expression, nil): the value is translated, the nil error is implied by RetB / RetZ
+				g, ty := t.expr(v.Results[0], e)
+				if ty == "bool" {
+					return leaf(acts, "RetB "+g)
+				}
+				return leaf(acts, "RetZ "+g)
+			}
 			panic(trErr{"return value not in the table: " + txt})
 		}
 	case *ast.BranchStmt:
@@ -396,15 +404,22 @@ func (t *translator) stmts(l []ast.Stmt, acts []int, e renv, k cont) string {
 		panic(trErr{"loop not in the action table: " + hdr})
 	default:
 		txt := t.text(s)
-		if r, ok := t.spec.Binders[txt]; ok {
-			persistent := false
-			if as, isAs := s.(*ast.AssignStmt); isAs && as.Tok != token.DEFINE {
-				persistent = true
+		r, isBinder := t.spec.Binders[txt]
+		id, isAct := t.spec.Actions[txt]
+		if isBinder || isAct {
+			// a statement may be an action (its effect is recorded) and a binder (it re-binds atoms) at once
+			e2 := e
+			if isBinder {
+				persistent := false
+				if as, isAs := s.(*ast.AssignStmt); isAs && as.Tok != token.DEFINE {
+					persistent = true
+				}
+				e2 = e.withP(r, persistent)
 			}
-			return next(acts, e.withP(r, persistent))
-		}
-		if id, ok := t.spec.Actions[txt]; ok {
-			return next(appendAct(acts, id), e)
+			if isAct {
+				acts = appendAct(acts, id)
+			}
+			return next(acts, e2)
 		}
 		if t.ignored(txt) {
 			return next(acts, e)
